@@ -635,6 +635,53 @@ fn c13_trim_horizon() {
 fn c13_trim_horizon_gap() {
     trim_stage(true);
 }
+// The same tuple when the superseded version held NULL in the updated column: the delta records the field index and
+// its bit in the old-version bitmap, and no value bytes (write_delta: `if !val.is_null() { write }`): 59 bytes.
+const D1N_LEN: usize = 59;
+fn trim_stage_null_old() {
+    let mut cols = std::mem::ManuallyDrop::new([col(K::Int), col(K::Int)]);
+    let schema = schema_over(&mut cols);
+    let w = any_one_delta();
+    let h: u64 = kani::any();
+    let (x1, x0) = (w[0], w[5]);
+    kani::assume(x0 <= x1);
+    kani::assume(!(x0 < h && h <= x1));
+    let mut t = fresh_tuple(D1N_LEN);
+    {
+        let d = t.effective_data_mut();
+        put_u64(d, 0, w[0]);
+        put_u64(d, 8, w[1]);
+        put_u64(d, 16, w[2]);
+        put_u64(d, 24, w[3]);
+        put_u64(d, 32, w[4]);
+        put_u64(d, 40, w[5]);
+        put_u64(d, 48, w[6]);
+        d[24] = 0;
+        d[56] = 1; // one change
+        d[57] = 1; // old-version bitmap: value 0 was NULL
+        d[58] = 0; // field index 0, no value bytes follow
+    }
+    kani::cover!(true, "reach");
+    let freed = okf(t.vaccum_with(h, &schema));
+    let d = t.effective_data();
+    let kept = d.len() == D1N_LEN;
+    assert!(freed.is_some(), "vacuum_ok");
+    assert!(d.len() == D1N_LEN || d.len() == D1_LIVE, "delta_kept_whole_or_removed_whole");
+    assert!(freed == Some(D1N_LEN - d.len()), "freed_is_size_difference");
+    assert!(live_same(d, &w), "live_version_bytes_unchanged");
+    if kept {
+        assert!(rd_u64(d, 40) == w[5] && rd_u64(d, 48) == w[6] && d[56] == 1 && d[57] == 1 && d[58] == 0, "kept_delta_bytes_unchanged");
+    }
+    assert!(kept == (x0 >= h), "delta_kept_iff_its_xmin_at_or_above_horizon");
+    std::mem::forget(t);
+}
+// @obl harness=c13_trim_horizon_null_old id=C13.trim_horizon[one_delta/old_value_NULL] also=C18 tier=quick funcs="Tuple::vaccum_with,TupleReader::parse_last_version,DeltaHeader::read_from,TupleReader::check_null" bounds="schema Int|Int; any 59-byte tuple whose single delta records a NULL old value (field index + bitmap bit, no value bytes), all stamps and the live value symbolic, any horizon; EXCLUDES delta xmin < horizon <= live xmin" assume="delta.xmin <= header.xmin" stubs="Column::datatype -> Int (exact for this schema)" unwind=2
+#[kani::proof]
+#[kani::unwind(2)]
+#[kani::stub(crate::schema::base::Column::datatype, stub_dt_int)]
+fn c13_trim_horizon_null_old() {
+    trim_stage_null_old();
+}
 // @obl harness=c13_trim_horizon_nostub id=C13.trim_horizon[one_delta/real_Column::datatype] tier=thorough funcs="Tuple::vaccum_with,TupleReader::parse_last_version,Column::datatype,DataTypeKind::deserialize" bounds="as c13_trim_horizon but without the Column::datatype stub (every kind arm explored)" assume="delta.xmin <= header.xmin" unwind=2
 #[kani::proof]
 #[kani::unwind(2)]
